@@ -199,15 +199,17 @@ def abs_c14(w, sess, frames, t0, hs_len, res):
             n += 1
             tun = r["cls"]["kind"] in ("ping", "data")
             evs.append({"e": "Recv", "n": n, "src": r["src"], "id": r["id"], "qn": r["qn"], "qt": r["qt"],
-                        "tun": tun})
+                        "tun": tun, "lk": wire.qn_str([l.lower() for l in r["labels"]])})
         elif r["k"] == "send" and not r["raw"]:
             pl = r.get("payload")
             hdr = bool(pl is not None and len(pl) >= 2 and pl[:3] not in (b"BAD", b"VAC", b"VNA", b"VFU", b"LNA") and
                        r["cls"]["kind"] in ("ping", "data"))
             if r.get("dns") and r.get("qr"):
-                evs.append({"e": "Ans", "dst": r["dst"], "id": r["id"], "qn": r["qn"], "qt": r["qt"], "hdr": hdr})
+                evs.append({"e": "Ans", "dst": r["dst"], "id": r["id"], "qn": r["qn"], "qt": r["qt"], "hdr": hdr,
+                            "lk": wire.qn_str([l.lower() for l in r["labels"]])})
             elif r["dst"].endswith(":53") is False and r.get("dns"):
-                evs.append({"e": "Ans", "dst": r["dst"], "id": r["id"], "qn": r["qn"], "qt": r["qt"], "hdr": hdr})
+                evs.append({"e": "Ans", "dst": r["dst"], "id": r["id"], "qn": r["qn"], "qt": r["qt"], "hdr": hdr,
+                            "lk": wire.qn_str([l.lower() for l in r["labels"]])})
             else:
                 evs.append({"e": "Garbage", "dst": r["dst"]})
         elif r["k"] == "stepend":
